@@ -218,4 +218,17 @@ PROPS = {
                  "over arbitrary histories: share supply = total shares, token supplies constant, supply = sum of balances, pool account = reserves + donations "
                  "(inside the contract), exact per-hop accounting of trader / pool / taker-fee collector, third parties untouched",
  },
+ "C07": {
+  "modules": ["OsmoVerif.Props.C07"],
+  "min_theorems": 19,
+  "fingerprints": ["CL.*"],
+  "engines": [{"name": "cl", "kind": "app", "n": {"quick": 2000, "thorough": 30000}, "shards": {"quick": 4, "thorough": 16}}],
+  "rule": "histories on one concentrated pool through the real keeper (create over overlapping/nested/abutting/gapped ranges incl. exactly on the current tick and at the range "
+          "ends, add, partial/full withdraw, swaps of both kinds/directions from 1 unit to draining, transfers); the bookkeeping oracle runs after EVERY op; distinct = distinct op lines",
+  "trusted_base": ["tick conversions as proved in C14/C14Mono", "osmomath arithmetic as proved in C12"],
+  "assumptions": ["theorems are over the pool state machine Model/CLPool.lean, tied to the keeper by full-state comparison (pool, all ticks, all positions, balances) after ops; "
+                  "positions with an underlying lock, CosmWasm hooks and the governance tick-spacing change are outside the model",
+                  "clause (a) across swaps is proved for spread factors with 0 <= spf <= 1/2 (all authorised ones: `authorized_parameters_ok`)"],
+  "explanation": "Inv = active liquidity / tick gross+net / stored-tick set / price-tick agreement / empty pool / id uniqueness, preserved by every op incl. the swap loop; reachable_inv by induction",
+ },
 }
